@@ -149,3 +149,16 @@ def _():
 @witness("C06", "add/*/only-sign-of-zero-differs")
 def _():
     return _add_zero_negative_zero()
+
+
+# ---------------------------------------------------------------- C15: onnxruntime's graph optimiser removes Expand(Reshape(x, Shape(x)), [0])
+@witness("C15", "broadcast_to*/*/*-only-with-onnxruntime-graph-optimizations")
+def _():
+    from . import impl
+    a = ndx.array(shape=("B",), dtype=ndx.uint32)
+    y = ndx.broadcast_to(ndx.roll(a, -7, axis=-1), (0,))
+    model = ndx.build({"a": a}, {"y": y})
+    feeds = {"a": np.array([5], dtype=np.uint32)}
+    with_opt = impl.session(model).run(None, feeds)[0]
+    without = impl.session(model, optimise=False).run(None, feeds)[0]
+    return y.shape == (0,) and without.shape == (0,) and with_opt.shape != (0,)
